@@ -74,3 +74,37 @@ pub async fn sqlite_file(path: &str, max_connections: u32) -> SqliteStore {
         .await
         .expect("build file sqlite store")
 }
+
+// ------------------------------------------------------------------------------------------------
+// Holding a COMMIT in flight (foreign-thread seam)
+// ------------------------------------------------------------------------------------------------
+
+static HOLD_COMMITS: std::sync::atomic::AtomicBool = std::sync::atomic::AtomicBool::new(false);
+
+/// While set, every SQLite COMMIT of a connection prepared by `install_commit_hold` stays inside
+/// SQLite's commit hook on its sqlx worker thread: the transaction is neither committed nor has
+/// the caller's future an answer. Process-global (runs of one worker process are sequential).
+pub fn hold_commits(hold: bool) {
+    HOLD_COMMITS.store(hold, std::sync::atomic::Ordering::SeqCst);
+}
+
+/// Install the commit hook on `n` pool connections (the whole pool when `n` = max_connections).
+/// The hook only waits while `hold_commits(true)` is in force (at most 20 s: safety net) and
+/// always lets the commit proceed.
+pub async fn install_commit_hold(store: &SqliteStore, n: u32) {
+    let mut conns = vec![];
+    for _ in 0..n {
+        conns.push(store.pool().acquire().await.expect("acquire pool connection"));
+    }
+    for c in conns.iter_mut() {
+        let mut h = c.lock_handle().await.expect("lock sqlite handle");
+        h.set_commit_hook(|| {
+            let t0 = std::time::Instant::now();
+            while HOLD_COMMITS.load(std::sync::atomic::Ordering::SeqCst) && t0.elapsed() < std::time::Duration::from_secs(20) {
+                std::thread::sleep(std::time::Duration::from_micros(50));
+            }
+            true
+        });
+    }
+    drop(conns);
+}
